@@ -249,6 +249,9 @@ impl AbstractTree for Tree {
 
         let strategy = Arc::new(crate::compaction::drop_range::Strategy::new(bounds));
 
+        #[cfg(feature = "verif")]
+        crate::verif::sched("drop_range:before_lock");
+
         // IMPORTANT: Write lock so we can be the only compaction going on
         #[expect(clippy::expect_used, reason = "lock is expected to not be poisoned")]
         let _lock = self
@@ -282,6 +285,9 @@ impl AbstractTree for Tree {
     #[doc(hidden)]
     fn major_compact(&self, target_size: u64, seqno_threshold: SeqNo) -> crate::Result<()> {
         let strategy = Arc::new(crate::compaction::major::Strategy::new(target_size));
+
+        #[cfg(feature = "verif")]
+        crate::verif::sched("major:before_lock");
 
         // IMPORTANT: Write lock so we can be the only compaction going on
         #[expect(clippy::expect_used, reason = "lock is expected to not be poisoned")]
@@ -445,6 +451,9 @@ impl AbstractTree for Tree {
             blob_files.map(<[BlobFile]>::len).unwrap_or_default(),
         );
 
+        #[cfg(feature = "verif")]
+        crate::verif::sched("register_tables");
+
         #[expect(clippy::expect_used, reason = "lock is expected to not be poisoned")]
         let mut _compaction_state = self.compaction_state.lock().expect("lock is poisoned");
         #[expect(clippy::expect_used, reason = "lock is expected to not be poisoned")]
@@ -517,6 +526,9 @@ impl AbstractTree for Tree {
         strategy: Arc<dyn CompactionStrategy>,
         seqno_threshold: SeqNo,
     ) -> crate::Result<()> {
+        #[cfg(feature = "verif")]
+        crate::verif::sched("compact:before_lock");
+
         // NOTE: Read lock major compaction lock
         // That way, if a major compaction is running, we cannot proceed
         // But in general, parallel (non-major) compactions can occur
@@ -549,6 +561,9 @@ impl AbstractTree for Tree {
 
     #[expect(clippy::significant_drop_tightening)]
     fn rotate_memtable(&self) -> Option<Arc<Memtable>> {
+        #[cfg(feature = "verif")]
+        crate::verif::sched("rotate");
+
         #[expect(clippy::expect_used, reason = "lock is expected to not be poisoned")]
         let mut version_history_lock = self.version_history.write().expect("lock is poisoned");
         let super_version = version_history_lock.latest_version();
@@ -913,6 +928,9 @@ impl Tree {
     #[doc(hidden)]
     #[must_use]
     pub fn append_entry(&self, value: InternalValue) -> (u64, u64) {
+        #[cfg(feature = "verif")]
+        crate::verif::sched("append_entry");
+
         #[expect(clippy::expect_used, reason = "lock is expected to not be poisoned")]
         self.version_history
             .read()
